@@ -140,3 +140,10 @@ let () =
       S (PyRender.py_proc_ref (rows tt) (strs structs) (strs protos) (strs msgs)) | _ -> failwith "arity");
   register "py.proc_reads" (function [tt; structs; protos; msgs] ->
       vbool (PyRender.py_proc_reads (rows tt) (strs structs) (strs protos) (strs msgs)) | _ -> failwith "arity")
+
+(* C10 bridge: the transition block of the shipped C# template *)
+let () =
+  register "cs.block_ok" (function [] -> vbool CsRender.cs_block_ok | _ -> failwith "arity");
+  register "cs.block_lines" (function [] -> vstrs CsRender.cs_block_lines | _ -> failwith "arity");
+  register "cs.block_ref" (function [tt; structs; protos; msgs] ->
+      S (CsRender.cs_block_ref (rows tt) (strs structs) (strs protos) (strs msgs)) | _ -> failwith "arity")
